@@ -390,11 +390,43 @@ def run(ctx):
     led.count("regex_sites", n_rx)
     led.ok("C20.names", "API census", "cvss/", "%d call/attribute sites checked against the availability tables" % n_calls)
     # fallbacks present
-    inter = ctx.repo.module("interactive")
-    has_fallback = any(
-        isinstance(st, ast.Try) and "raw_input" in ast.unparse(st) and "input" in ast.unparse(st) for st in inter.tree.body
-    )
-    led.check(has_fallback or not py2, "C20.names.fallback", "interactive::raw_input fallback", inter.relpath, "raw_input/input selection vanished")
+    # the builtin input() evaluates what it reads on Python 2.7: every reference to it must be the
+    # fallback of a raw_input selection (except NameError after a try that names raw_input, or
+    # the default of getattr(<builtins>, "raw_input", ...)) - decided per reference, whatever the
+    # selection is wrapped in
+    n_in = 0
+    for name, m in sorted(ctx.repo.modules.items()):
+        if any(isinstance(d, (ast.FunctionDef, ast.ClassDef)) and d.name == "input" for d in m.tree.body):
+            continue  # the package's own input()
+        for n in ast.walk(m.tree):
+            is_ref = (isinstance(n, ast.Name) and n.id == "input" and isinstance(n.ctx, ast.Load)) or (
+                isinstance(n, ast.Attribute) and n.attr == "input" and isinstance(n.ctx, ast.Load) and isinstance(n.value, ast.Name) and "builtin" in n.value.id
+            )
+            if not is_ref:
+                continue
+            n_in += 1
+            ok = False
+            child, p = n, m.parent(n)
+            while p is not None and not ok:
+                if isinstance(p, ast.ExceptHandler):
+                    names = [x.id for x in ast.walk(p.type) if isinstance(x, ast.Name)] if p.type is not None else ["NameError"]
+                    t = m.parent(p)
+                    if isinstance(t, ast.Try) and ("NameError" in names or "Exception" in names) and any(
+                        isinstance(x, ast.Name) and x.id == "raw_input" for b in t.body for x in ast.walk(b)
+                    ):
+                        ok = True
+                if isinstance(p, ast.Call) and isinstance(p.func, ast.Name) and p.func.id == "getattr" and len(p.args) == 3 and p.args[2] is child:
+                    if isinstance(p.args[1], ast.Constant) and p.args[1].value == "raw_input":
+                        ok = True
+                child, p = p, m.parent(p)
+            led.check(
+                ok or not py2,
+                "C20.names.fallback",
+                "%s::%s" % (name, short(m.parent(n)) if m.parent(n) is not None else "input"),
+                m.where(n),
+                "the builtin input is used without a raw_input selection in front of it: on Python 2.7 input() evaluates the text it reads",
+            )
+    led.count("input_references", n_in)
     # ---- division / round
     n_div = 0
     for name, m in sorted(ctx.repo.modules.items()):
